@@ -7019,40 +7019,48 @@ impl RelationalEngine {
             }
 
             // Record undo entry BEFORE making changes
-            self.tx_manager.record_undo(
-                tx_id,
-                UndoEntry::UpdatedRow {
-                    table: table.to_string(),
-                    slab_row_id: *slab_row_id,
-                    row_id: row.id,
-                    old_values: old_slab_values.clone(),
-                    index_changes,
-                },
-            );
+            let undo = UndoEntry::UpdatedRow {
+                table: table.to_string(),
+                slab_row_id: *slab_row_id,
+                row_id: row.id,
+                old_values: old_slab_values.clone(),
+                index_changes,
+            };
+            self.tx_manager.record_undo(tx_id, undo.clone());
 
-            // Update indexes
-            for col in &indexed_columns {
-                if let Some(new_value) = updates.get(col) {
-                    if let Some(old_value) = row.get_with_id(col) {
-                        self.index_remove(table, col, &old_value, row.id)?;
+            let changed = (|| -> Result<()> {
+                // Update indexes
+                for col in &indexed_columns {
+                    if let Some(new_value) = updates.get(col) {
+                        if let Some(old_value) = row.get_with_id(col) {
+                            self.index_remove(table, col, &old_value, row.id)?;
+                        }
+                        self.index_add(table, col, new_value, row.id)?;
                     }
-                    self.index_add(table, col, new_value, row.id)?;
                 }
-            }
 
-            for col in &btree_columns {
-                if let Some(new_value) = updates.get(col) {
-                    if let Some(old_value) = row.get_with_id(col) {
-                        self.btree_index_remove(table, col, &old_value, row.id)?;
+                for col in &btree_columns {
+                    if let Some(new_value) = updates.get(col) {
+                        if let Some(old_value) = row.get_with_id(col) {
+                            self.btree_index_remove(table, col, &old_value, row.id)?;
+                        }
+                        self.btree_index_add(table, col, new_value, row.id)?;
                     }
-                    self.btree_index_add(table, col, new_value, row.id)?;
                 }
-            }
 
-            // Update the row in slab
-            self.slab()
-                .update_row(table, *slab_row_id, &slab_updates)
-                .map_err(|e| RelationalError::StorageError(e.to_string()))?;
+                // Update the row in slab
+                self.slab()
+                    .update_row(table, *slab_row_id, &slab_updates)
+                    .map_err(|e| RelationalError::StorageError(e.to_string()))
+            })();
+            if let Err(e) = changed {
+                // The row is changed half-way (some index entries moved, the
+                // table row not yet): put it back at once. The transaction
+                // stays usable, and a commit must not make a row permanent
+                // whose index entries disagree with it.
+                let _ = self.apply_undo_entry(&undo);
+                return Err(e);
+            }
         }
 
         Ok(matching_rows.len())
